@@ -58,10 +58,10 @@ PROPS = {
              [fam("ladder", n=400), RANDOM_Q, ENUM_Q], [fam("ladder", n=4000), RANDOM_T, ENUM_T], GUARDS),
     "C03": P("C03", ["LSProofs.Props.C03"], ["ev", "rc", "handles"],
              [RANDOM_Q, ENUM_Q, fam("ladder", n=300), fam("threads", n=100, scripted=False)],
-             [RANDOM_T, ENUM_T, fam("ladder", n=3000), fam("threads", n=1500, scripted=False)], GUARDS),
+             [RANDOM_T, ENUM_T, fam("ladder", n=3000), fam("threads", n=1500, scripted=False)], GUARDS, loom=True),
     "C04": P("C04", ["LSProofs.Props.C04"], None,
              [fam("threads", n=200, scripted=False)], [fam("threads", n=3000, scripted=False)], ["atomicSites", "callOrder", "atomicOrdCodes"],
-             search=[fam("threads", n=2000, scripted=False)], scripted=False),
+             search=[fam("threads", n=2000, scripted=False)], scripted=False, loom=True),
     "C05": P("C05", ["LSProofs.Props.C05"], ["out", "text", "rc", "ev", "handles"],
              [fam("faultsweep", n=250), ENUM_Q], [fam("faultsweep", n=2500), ENUM_T, RANDOM_T], GUARDS,
              search=[fam("faultsweep", n=3000), fam("random", n=30000)]),
